@@ -165,7 +165,11 @@ class World:
             # let cancelled tasks unwind so that destructors stay quiet
             for t in list(self.loop.tasks):
                 if not t.done():
-                    t.cancel()
+                    try:
+                        t.cancel()
+                    except RecursionError:
+                        pass        # tasks of the code under test that (directly or not) await themselves
+
             self.loop.limit_hit = None
             self.loop.max_steps = self.loop.steps + 2000
             self.loop.after_step = None
